@@ -8,14 +8,18 @@ import "fmt"
 
 type Mutex struct {
 	id      int
+	owner   *Sim
 	locked  bool
 	waiters []*G
 	vc      VC
 }
 
+// ident: identity is per simulation. A mutex that outlives a simulation
+// (package-level loggers) is reset when first touched by the next one, so no
+// state - not even "locked when the program was killed" - leaks between runs.
 func (m *Mutex) ident() int {
-	if m.id == 0 {
-		m.id = S.newObj()
+	if m.id == 0 || m.owner != S {
+		*m = Mutex{id: S.newObj(), owner: S}
 	}
 	return m.id
 }
@@ -66,6 +70,7 @@ func (m *Mutex) Unlock() {
 
 type RWMutex struct {
 	id      int
+	owner   *Sim
 	writer  bool
 	readers int
 	waiters []*G
@@ -74,8 +79,8 @@ type RWMutex struct {
 }
 
 func (m *RWMutex) ident() int {
-	if m.id == 0 {
-		m.id = S.newObj()
+	if m.id == 0 || m.owner != S {
+		*m = RWMutex{id: S.newObj(), owner: S}
 	}
 	return m.id
 }
@@ -144,14 +149,15 @@ func (m *RWMutex) wakeAll(s *Sim) {
 
 type WaitGroup struct {
 	id      int
+	owner   *Sim
 	n       int
 	waiters []*G
 	vc      VC
 }
 
 func (w *WaitGroup) ident() int {
-	if w.id == 0 {
-		w.id = S.newObj()
+	if w.id == 0 || w.owner != S {
+		*w = WaitGroup{id: S.newObj(), owner: S}
 	}
 	return w.id
 }
